@@ -651,3 +651,29 @@ pub fn discovered_mate_position(rng: &mut Rng) -> Option<Pos> {
     }
     None
 }
+
+/// Kings and two to four pawns a side, none further than the sixth rank: a search gets deep
+/// quickly, and the value of a pawn race often changes by hundreds of centipawns from one
+/// iteration to the next.
+pub fn pawn_endgame_position(rng: &mut Rng) -> Pos {
+    loop {
+        let mut p = Pos { sq: [EMPTY; 64], white_to_move: rng.chance(1, 2), castle: [false; 4], ep: None, halfmove: 0, fullmove: 40 };
+        for c in [0u8, BLACK] {
+            for _ in 0..rng.range(2, 4) {
+                let f = rng.below(8) as i8;
+                let r = if c == 0 { 1 + rng.below(4) as i8 } else { 6 - rng.below(4) as i8 };
+                let s = sq(f, r);
+                if p.sq[s as usize] == EMPTY {
+                    p.sq[s as usize] = PAWN | c;
+                }
+            }
+        }
+        let mut free: Vec<u8> = (0..64).filter(|s| p.sq[*s as usize] == EMPTY).collect();
+        rng.shuffle(&mut free);
+        p.sq[free.pop().unwrap() as usize] = KING;
+        p.sq[free.pop().unwrap() as usize] = KING | BLACK;
+        if p.is_valid() && !p.legal_moves().is_empty() {
+            return p;
+        }
+    }
+}
